@@ -509,17 +509,18 @@ Proof.
   apply va_rawlist; [reflexivity|discriminate|exact He|vm_compute; exact I].
 Qed.
 
+(* the tree the parser builds for the require line *)
+Definition req_pnode (reqs : list bytes) : node :=
+  Node (def_of (bs "require")) [(bs "capabilities", VList (map print_item reqs))] [] [] [].
+
 Lemma req_wf : forall r0 rest, kreqs (r0 :: rest) ->
-  exists np, wf_cmd gen_tables [] None (req_cmd (r0 :: rest)) np (load_exts (map print_item (r0 :: rest)) []) /\
-             d_name (node_def np) = bs "require".
+  wf_cmd gen_tables [] None (req_cmd (r0 :: rest)) (req_pnode (r0 :: rest)) (load_exts (map print_item (r0 :: rest)) []).
 Proof.
   intros r0 rest Hk. destruct (kreqs_items _ Hk) as (_ & Hu).
-  unfold req_cmd. set (items := map print_item (r0 :: rest)) in *.
+  unfold req_cmd, req_pnode. set (items := map print_item (r0 :: rest)) in *.
   assert (Hne : items <> []) by (unfold items; discriminate). clearbody items.
-  eexists. split.
-  - eapply wf_act; [vmr|vm_compute; congruence|vmr|vmr|vmr| |vmr|vmr|vm_compute; reflexivity].
-    constructor; [split; [exact Hne|exact Hu]|constructor].
-  - vmr.
+  eapply wf_act; [vmr|vm_compute; congruence|vmr|vmr|vmr| |vmr|vmr|vm_compute; reflexivity].
+  constructor; [split; [exact Hne|exact Hu]|constructor].
 Qed.
 
 (* C06 / C11: the text FiltersSet.tosieve writes for a set of good filters with requirements that cover them is
@@ -533,7 +534,7 @@ Theorem set_accepted : forall loaded fuel reqs sfs,
     Forall2 parsed_as sfs nps /\
     match reqs with
     | [] => ns = nps
-    | _ => exists rq, ns = rq :: nps /\ d_name (node_def rq) = bs "require" /\ node_comments rq = []
+    | _ => ns = req_pnode reqs :: nps
     end.
 Proof.
   intros loaded fuel reqs sfs Hne Hk Hok Hfuel. unfold render_set. cbn [bs_requires bs_filters].
@@ -550,7 +551,7 @@ Proof.
     + discriminate.
     + apply (ftops_depth [] fuel). exact Hok.
   - rewrite gen_require_eq. cbn [bbind].
-    destruct (req_wf r0 rest Hk) as (rqp & Wq & Hqn).
+    pose proof (req_wf r0 rest Hk) as Wq. set (rqp := req_pnode (r0 :: rest)) in *.
     set (L1 := load_exts (map print_item (r0 :: rest)) []) in *.
     destruct (filters_wf (r0 :: rest) fuel sfs L1 (Some (d_name (node_def rqp))) Hok) as (nps & W & Hps).
     { intros e He. apply loaded_by_require; assumption. }
@@ -567,7 +568,7 @@ Proof.
       * constructor; [split; [reflexivity|constructor]|apply (ftops_hash (r0 :: rest) fuel); [reflexivity|exact Hok]].
       * discriminate.
       * unfold tops_depth. cbn [fold_right fst snd req_cmd dc]. apply Nat.max_lub; [exact Hfuel|apply (ftops_depth (r0 :: rest) fuel); exact Hok].
-    + eexists. split; [reflexivity|]. split; [destruct rqp; exact Hqn|reflexivity].
+    + reflexivity.
 Qed.
 
 End Filt.
@@ -596,7 +597,7 @@ Theorem factory_set_accepted : forall name_pre desc_pre loaded fuel reqs sfs,
     Forall2 (parsed_as name_pre desc_pre) sfs nps /\
     match reqs with
     | [] => ns = nps
-    | _ => exists rq, ns = rq :: nps /\ d_name (node_def rq) = bs "require" /\ node_comments rq = []
+    | _ => ns = req_pnode reqs :: nps
     end.
 Proof. exact (set_accepted quote_if_necessary quote_list std_qin_eq std_qlist_eq). Qed.
 
